@@ -651,6 +651,34 @@ def check_C18(tier, seed):
                  "first_disagreeing_case": None if d is None else
                  {"program": d[1], "entry_index": d[2], "implementation": d[3], "model": d[4],
                   "implementation_entries": d[5], "model_entries": d[6]}})
+    # ---- the global holder itself through the crate's public functions (set_global_default / get_global_default /
+    # is_global_default_set), one fresh process per history: reads say "not set" before the first set, afterwards
+    # always the same client, whoever offers another one later
+    from . import mac as mac_driver
+    gq = []
+    for pre in ([], [("Q",)], [("G",), ("QT",)]):
+        for first in ("S", "Z"):
+            for mid in ([], [("G",)], [("Q",), ("GT",)]):
+                steps = pre + [(first,)] + mid + [("Z",) if first == "S" else ("S",)] + [("G",), ("Q",), ("GT",), ("QT",), ("G",)]
+                gq.append(mac_driver.MCase("p", [], None, [], steps))
+    gq.append(mac_driver.MCase("p", [], None, [], [("Q",), ("G",), ("QT",), ("GT",)]))
+    try:
+        gimpl = common.run_harness("mac", [c.line() for c in gq], shards=min(8, common.NCPU))
+    except common.CheckFailure as e:
+        gimpl = ["HARNESS-PANIC " + str(e)[:200]] * len(gq)
+    gbad = []
+    for c, o in zip(gq, gimpl):
+        msgs = mac_driver.judge(c, o, {})
+        if "g1!" in o:
+            msgs.append("get_global_default() returned different Arc instances in one process")
+        if msgs:
+            gbad.append((c.line(), o, msgs))
+    rep.cov["global_holder_histories"] = len(gq)
+    if gbad and not concrete:
+        l, o, msgs = sorted(gbad, key=lambda x: len(x[0]))[0]
+        concrete = True
+        rep.violation_input("%s (%d failing histories of the global holder; smallest shown)" % (msgs[0][:300], len(gbad)),
+                            {"bin": "mac", "case": l, "implementation": o, "clauses": msgs})
     # ---- evidence
     stats = {"ops": {}, "racing_setters": 0, "in_window": 0, "nontrivial": 0, "value_returned": 0}
     for s in summ:
